@@ -5,7 +5,7 @@
 From Coq Require Import String ZArith NArith List Bool Reals.
 From Tangelo Require Import Num.KStruct Num.CReal Num.Cyc QSem.State QSem.StateLemmas QSem.CircuitLemmas QSem.Commute.
 From Tangelo Require Import Linq.GateModel Linq.CircuitModel Linq.History Linq.CircuitProofs Linq.Interp
-     Linq.InterpProofs Linq.PassLemmas Linq.Clifford Linq.RealInst Linq.LinqZ Linq.Equiv Linq.SmallRot.
+     Linq.InterpProofs Linq.PassLemmas Linq.Clifford Linq.CliffordProofs Linq.RealInst Linq.LinqZ Linq.Equiv Linq.SmallRot.
 From Tangelo Require Import Linq.ScanLemmas Linq.InterpFacts Linq.MergeProofs Linq.GateEqSound Linq.RedundantProofs
      Linq.RedundantExact Linq.SimplifyProofs.
 From Gen Require Import GateTables CliffordTables.
@@ -95,6 +95,23 @@ Theorem C09_clifford_table_complete :
   table_complete clifford_values clifford_table = true /\ zero_is_identity = true /\ period_ok = true.
 Proof. vm_compute. repeat split. Qed.
 Print Assumptions C09_clifford_table_complete.
+
+(* 7b. decompose_gate_to_cliffords for EVERY integer k: on the pi/8 grid the angle k*pi/2 (4k units; any
+      angle with  theta mod clifford_step = 0, which is Gate.is_clifford) is accepted, and the Clifford word
+      selected by the regenerated selection rule (zero -> [], else first clifford_value equal modulo
+      clifford_period, row of the table, default []) is the rotation up to a global phase.  Unbounded in k:
+      the selection depends on k modulo 2*pi and the matrices on k modulo 4*pi (CliffordProofs.v). *)
+Theorem C09_clifford_decompose_every_k :
+  forall name k, In name rotation_names -> (k mod clifford_step = 0)%Z ->
+  exists names, decompose_rot clifford_values clifford_table clifford_period clifford_step name k = Some names
+                /\ decomp_ok names name k = true.
+Proof. apply decompose_rot_sound. vm_compute. reflexivity. Qed.
+Print Assumptions C09_clifford_decompose_every_k.
+
+Example C09_clifford_decompose_nonvacuous :
+  decompose_rot clifford_values clifford_table clifford_period clifford_step "RX" (-44)%Z = Some ["SDAG"; "H"; "SDAG"]
+  /\ decompose_rot clifford_values clifford_table clifford_period clifford_step "RZ" 6%Z = None.
+Proof. vm_compute. split; reflexivity. Qed.
 
 (* 8. Out-of-place transformations leave their input unchanged (model of the repaired source):
       every operation other than the in-place methods keeps every existing circuit of the store. *)
